@@ -355,7 +355,7 @@ FORBID(realloc, void*, (void* p, size_t n), (p, n))
 /* ------------------------------------------------------------------------------------------- */
 /* registers                                                                                   */
 
-#define NREG 256
+#define NREG 4096
 typedef struct { polyseed_data* p; int id; } hreg_t;
 static hreg_t hregs[NREG];
 static int next_handle_id = 1;
@@ -428,10 +428,15 @@ static void needle_add(const char* kind, const void* p, size_t n) {
 static void needles_windows(const char* kind, const uint8_t* p, size_t n, size_t win) {
     if (n < win) return;
     for (size_t i = 0; i + win <= n; ++i) {
-        /* skip low-entropy windows (all bytes equal) which match padding by chance */
-        bool same = true;
-        for (size_t j = 1; j < win; ++j) if (p[i + j] != p[i]) same = false;
-        if (!same) needle_add(kind, p + i, win);
+        /* only high-entropy windows: a window with few distinct byte values matches padding,
+           small integers and pointers by chance */
+        int distinct = 0;
+        for (size_t j = 0; j < win; ++j) {
+            bool seen = false;
+            for (size_t q = 0; q < j; ++q) if (p[i + q] == p[i + j]) seen = true;
+            if (!seen) ++distinct;
+        }
+        if (distinct >= (int)win - 2 && distinct >= 5) needle_add(kind, p + i, win);
     }
 }
 
@@ -442,9 +447,11 @@ static void needles_indices(const gf_elem* c, int n) {
     /* any 4 consecutive indices stored as 2-, 4- or 8-byte little-endian integers */
     for (int i = 0; i + IDXWIN <= n; ++i) {
         uint16_t a16[IDXWIN]; uint32_t a32[IDXWIN]; uint64_t a64[IDXWIN];
-        bool trivial = true;
+        bool trivial = false;
         for (int j = 0; j < IDXWIN; ++j) { a16[j] = (uint16_t)c[i + j]; a32[j] = (uint32_t)c[i + j]; a64[j] = c[i + j];
-            if (c[i + j] != c[i]) trivial = false; }
+            /* all values of the window distinct and not small: no chance matches */
+            if (c[i + j] < 16) trivial = true;
+            for (int q = 0; q < j; ++q) if (c[i + q] == c[i + j]) trivial = true; }
         if (trivial) continue;
         needle_add("idx", a16, sizeof a16); needle_add("idx", a32, sizeof a32); needle_add("idx", a64, sizeof a64);
     }
@@ -532,9 +539,11 @@ static char altstack[65536];
 static void fault_line(const char* what, int sig) {
     static volatile int once = 0;
     if (once++) _exit(3);
+    int was_in_api = in_api;
     in_stub = 100;
     flush_queue();
-    fprintf(out, "{\"e\":\"Fault\",\"op\":\"%s\",\"what\":\"%s\",\"sig\":%d", cur_op, what, sig); eol();
+    /* a line may be half written: terminate it so that the trace stays parseable up to here */
+    fprintf(out, "\n{\"e\":\"Fault\",\"op\":\"%s\",\"what\":\"%s\",\"sig\":%d,\"inapi\":%s", cur_op, what, sig, was_in_api ? "true" : "false"); eol();
     fprintf(out, "{\"e\":\"End\",\"complete\":false"); eol();
     fflush(out);
     _exit(0);
@@ -702,6 +711,12 @@ static void emit_ret_end(void) {
 /* ------------------------------------------------------------------------------------------- */
 /* script parsing helpers                                                                      */
 
+static int reg(const char* t) {
+    int r = atoi(t);
+    if (r < -1 || r >= NREG) { fprintf(stderr, "driver: register %d out of range\n", r); exit(2); }
+    return r;
+}
+
 static int hexval(int c) { return c >= '0' && c <= '9' ? c - '0' : c >= 'a' && c <= 'f' ? c - 'a' + 10 : c >= 'A' && c <= 'F' ? c - 'A' + 10 : -1; }
 static size_t unhex(const char* h, uint8_t* dst, size_t cap) {
     size_t n = 0;
@@ -739,7 +754,10 @@ static void prepare_nfkd(const uint8_t* s) {
 static void reset_all(void) {
     /* free every live seed with a quiet, known dependency table */
     polyseed_dependency d = make_deps("AAAAAAAA");
+    /* an API call like any other: a crash of the library's self-test here is the library's */
+    cur_op = "inject"; in_api = 1;
     quiet_normalise = 1; polyseed_inject(&d); quiet_normalise = 0;
+    in_api = 0;
     for (int r = 0; r < NREG; ++r) if (hregs[r].p) { polyseed_free(hregs[r].p); hregs[r].p = NULL; }
     nev = 0; nblk = 0; next_blk_id = 1; next_handle_id = 1;
     polyseed_enable_features(0);
@@ -805,13 +823,12 @@ int main(int argc, char** argv) {
         ((char)-1) < 0 ? "true" : "false");
     eol();
 
-    reset_all();
     char* line = NULL; size_t cap = 0;
-    static char tok[16][140000];
+    static char tok[24][140000];
     static uint8_t tmp[70000];
     while (getline(&line, &cap, in) > 0) {
         int nt = 0; char* p = line;
-        while (nt < 16) {
+        while (nt < 24) {
             while (*p == ' ' || *p == '\t') ++p;
             if (*p == '\n' || *p == 0 || *p == '#') break;
             size_t k = 0;
@@ -826,9 +843,8 @@ int main(int argc, char** argv) {
         C.seed_out = NULL; C.lang_out = NULL;
 
         if (!strcmp(op, "exec")) {
-            reset_all();
-            cur_exec = "";
             fprintf(out, "{\"e\":\"Reset\",\"name\":\"%s\"", nt > 1 ? tok[1] : ""); eol();
+            reset_all();
         }
         else if (!strcmp(op, "projection")) { want_projection = atoi(tok[1]) != 0; }
         else if (!strcmp(op, "env")) {
@@ -840,8 +856,8 @@ int main(int argc, char** argv) {
                 else if (!strncmp(tok[i], "fail=", 5)) env.fail = (unsigned)strtoul(tok[i] + 5, NULL, 10);
             }
         }
-        else if (!strcmp(op, "str")) { size_t n = unhex(tok[2], tmp, sizeof tmp); set_sreg(atoi(tok[1]), tmp, n); }
-        else if (!strcmp(op, "buf")) { int r = atoi(tok[1]); memset(bregs[r], 0, POLYSEED_SIZE); unhex(tok[2], bregs[r], POLYSEED_SIZE); bset[r] = true; }
+        else if (!strcmp(op, "str")) { size_t n = unhex(tok[2], tmp, sizeof tmp); set_sreg(reg(tok[1]), tmp, n); }
+        else if (!strcmp(op, "buf")) { int r = reg(tok[1]); memset(bregs[r], 0, POLYSEED_SIZE); unhex(tok[2], bregs[r], POLYSEED_SIZE); bset[r] = true; }
         else if (!strcmp(op, "inject")) {
             /* the caller's struct lives in scratch memory that is overwritten right after the call */
             static polyseed_dependency scratch;
@@ -911,7 +927,7 @@ int main(int argc, char** argv) {
             fprintf(out, "],\"ret\":%u", (unsigned)gf_poly_eval(&poly)); eol();
         }
         else if (!strcmp(op, "create")) {
-            int hr = atoi(tok[1]); C.op = OP_CREATE; C.u = (unsigned)strtoul(tok[2], NULL, 10);
+            int hr = reg(tok[1]); C.op = OP_CREATE; C.u = (unsigned)strtoul(tok[2], NULL, 10);
             fprintf(out, "{\"e\":\"Begin\",\"op\":\"Create\",\"lo\":%u,\"hi\":%u", C.u & 0xffff, C.u >> 16); eol();
             needles_windows("secret", env.rand, env.rand_n < 19 ? env.rand_n : 19, 8);
             api_call(true);
@@ -921,7 +937,7 @@ int main(int argc, char** argv) {
             emit_ret_end();
         }
         else if (!strcmp(op, "free")) {
-            int hr = atoi(tok[1]); int hid = 0;
+            int hr = reg(tok[1]); int hid = 0;
             if (hr < 0) { C.seed = NULL; }
             else { if (!hregs[hr].p) continue; C.seed = hregs[hr].p; hid = hregs[hr].id; }
             C.op = OP_FREE;
@@ -933,10 +949,10 @@ int main(int argc, char** argv) {
             emit_ret_common("Free"); emit_ret_end();
         }
         else if (!strcmp(op, "encode")) {
-            int hr = atoi(tok[1]); if (!hregs[hr].p) continue;
+            int hr = reg(tok[1]); if (!hregs[hr].p) continue;
             const polyseed_lang* l = lang_by_id(tok[2]); if (!l) continue;
             C.op = OP_ENCODE; C.seed = hregs[hr].p; C.lang = l; C.coin = (polyseed_coin)atoi(tok[3]);
-            int sr = atoi(tok[4]);
+            int sr = reg(tok[4]);
             fprintf(out, "{\"e\":\"Begin\",\"op\":\"Encode\",\"h\":%d,\"lang\":\"%s\",\"coin\":%d", hregs[hr].id, tok[2], (int)C.coin); eol();
             memset(g_str_out_area, 0xEE, sizeof g_str_out_area);
             needles_seed(C.seed, C.coin);
@@ -956,11 +972,11 @@ int main(int argc, char** argv) {
         }
         else if (!strcmp(op, "decode") || !strcmp(op, "decodex")) {
             bool ex = op[6] == 'x';
-            int sr = atoi(tok[1]); if (!sregs[sr].set) continue;
+            int sr = reg(tok[1]); if (!sregs[sr].set) continue;
             C.coin = (polyseed_coin)atoi(tok[2]);
             int hr; const char* lid = "";
-            if (ex) { lid = tok[3]; C.lang = lang_by_id(lid); if (!C.lang) continue; hr = atoi(tok[4]); C.op = OP_DECODEX; }
-            else { hr = atoi(tok[3]); C.op = OP_DECODE; C.want_lang = !(nt > 4 && !strcmp(tok[4], "nolang")); }
+            if (ex) { lid = tok[3]; C.lang = lang_by_id(lid); if (!C.lang) continue; hr = reg(tok[4]); C.op = OP_DECODEX; }
+            else { hr = reg(tok[3]); C.op = OP_DECODE; C.want_lang = !(nt > 4 && !strcmp(tok[4], "nolang")); }
             const uint8_t* s = sregs[sr].p; size_t n = sregs[sr].n;
             prepare_nfkd(s);
             uint8_t* gp = guard_place(s, n + 1);
@@ -982,7 +998,7 @@ int main(int argc, char** argv) {
             emit_ret_end();
         }
         else if (!strcmp(op, "store")) {
-            int hr = atoi(tok[1]); if (!hregs[hr].p) continue; int br = atoi(tok[2]);
+            int hr = reg(tok[1]); if (!hregs[hr].p) continue; int br = reg(tok[2]);
             C.op = OP_STORE; C.seed = hregs[hr].p;
             fprintf(out, "{\"e\":\"Begin\",\"op\":\"Store\",\"h\":%d", hregs[hr].id); eol();
             memset(g_store_out, 0xEE, sizeof g_store_out);
@@ -997,7 +1013,7 @@ int main(int argc, char** argv) {
             memcpy(bregs[br], g_store_out, POLYSEED_SIZE); bset[br] = true;
         }
         else if (!strcmp(op, "load")) {
-            int br = atoi(tok[1]); if (!bset[br]) continue; int hr = atoi(tok[2]);
+            int br = reg(tok[1]); if (!bset[br]) continue; int hr = reg(tok[2]);
             uint8_t* gp = guard_place(bregs[br], POLYSEED_SIZE);
             C.op = OP_LOAD; C.buf = gp;
             fprintf(out, "{\"e\":\"Begin\",\"op\":\"Load\""); emit_bytes("buf", bregs[br], POLYSEED_SIZE); eol();
@@ -1013,8 +1029,8 @@ int main(int argc, char** argv) {
             emit_ret_end();
         }
         else if (!strcmp(op, "crypt")) {
-            int hr = atoi(tok[1]); if (!hregs[hr].p) continue;
-            int sr = atoi(tok[2]); if (!sregs[sr].set) continue;
+            int hr = reg(tok[1]); if (!hregs[hr].p) continue;
+            int sr = reg(tok[2]); if (!sregs[sr].set) continue;
             const uint8_t* s = sregs[sr].p; size_t n = sregs[sr].n;
             prepare_nfkd(s);
             uint8_t* gp = guard_place(s, n + 1);
@@ -1040,7 +1056,7 @@ int main(int argc, char** argv) {
             emit_ret_end();
         }
         else if (!strcmp(op, "keygen")) {
-            int hr = atoi(tok[1]); if (!hregs[hr].p) continue;
+            int hr = reg(tok[1]); if (!hregs[hr].p) continue;
             C.op = OP_KEYGEN; C.seed = hregs[hr].p; C.coin = (polyseed_coin)atoi(tok[2]); C.size = (size_t)atoi(tok[3]);
             if (C.size > 1000) C.size = 1000;
             kdf_key_ptr = g_key_out; kdf_key_len = C.size; kdf_fill = (uint8_t)(n_lines * 7 + 13);
@@ -1057,7 +1073,7 @@ int main(int argc, char** argv) {
             emit_ret_end();
         }
         else if (!strcmp(op, "bday") || !strcmp(op, "feat") || !strcmp(op, "isenc")) {
-            int hr = atoi(tok[1]); if (!hregs[hr].p) continue;
+            int hr = reg(tok[1]); if (!hregs[hr].p) continue;
             C.seed = hregs[hr].p;
             if (op[0] == 'b') {
                 C.op = OP_BDAY;
